@@ -77,12 +77,14 @@ func Transfer(from, to, amount, data) (ok)
 
 func Mint(to, amount, txDetails)
   requires len(to) == 20
+  cover [C01] W(alphabet()) && amount > 0
   ensures W(alphabet())
   ensures [C01] supply(store) == old(supply(store)) + amount && bal(store, to) == old(bal(store, to)) + amount
   ensures [C02] forall a Bytes {store.opt(akey(a))} :: len(a) == 20 ==> bal(store, a) >= old(bal(store, a))
 
 func Burn(from, amount, txDetails)
   requires len(from) == 20
+  cover [C01] W(alphabet()) && amount > 0 && bal(store, from) >= amount && supply(store) >= amount
   ensures W(alphabet())
   ensures [C01] supply(store) == old(supply(store)) - amount && bal(store, from) == old(bal(store, from)) - amount
   ensures [C01] supply(store) >= 0
@@ -94,6 +96,7 @@ func Burn(from, amount, txDetails)
 
 func TransferX(from, to, amount, details)
   requires len(from) == 20 && len(to) == 20
+  cover [C02] W(alphabet()) && amount > 0 && from != to && bal(store, from) >= amount
   ensures W(alphabet())
   ensures [C01] supply(store) == old(supply(store))
   ensures [C01] notifs == old(notifs) ++ [Transfer(from, to, amount), TransferX(from, to, amount, details)]
@@ -104,6 +107,7 @@ func TransferX(from, to, amount, details)
 // Lock. Input assumptions granted by the property text: well-formed 20-byte addresses and a fresh lock address.
 func Lock(txDetails, from, to, amount, until)
   requires len(from) == 20 && len(to) == 20 && from != to && !store.has(akey(to))
+  cover [C09] W(alphabet()) && amount > 0 && until > 0 && bal(store, from) >= amount
   ensures W(alphabet())
   ensures [C09] store.has(akey(to)) && acct(store, to).Balance == amount && acct(store, to).Until == until && acct(store, to).Parent == from
   ensures [C09] bal(store, from) == old(bal(store, from)) - amount && amount >= 0
